@@ -36,14 +36,24 @@ class NameMappingRequest(LocatedRequest[Optional[KeyPath]]):
     generated_key: Key
 
 
+def _to_plain_key(key: Key) -> Key:
+    # Keys are rendered into the generated code via repr().
+    # A subclass can override it, for example, a member of ``class Color(str, Enum)`` is rendered as ``<Color.RED: 'red'>``
+    if type(key) in (str, int, bool):
+        return key
+    if isinstance(key, str):
+        return str.__str__(key)
+    return int(key)
+
+
 def resolve_map_result(generated_key: Key, map_result: MapResult) -> Optional[KeyPath]:
     if map_result is None:
         return None
     if isinstance(map_result, (str, int)):
-        return (map_result, )
+        return (_to_plain_key(map_result), )
     if isinstance(map_result, EllipsisType):
         return (generated_key,)
-    return tuple(generated_key if isinstance(key, EllipsisType) else key for key in map_result)
+    return tuple(generated_key if isinstance(key, EllipsisType) else _to_plain_key(key) for key in map_result)
 
 
 class NameMappingProvider(MethodsProvider, ABC):
